@@ -263,6 +263,10 @@ class CollisionMachine(Machine):
     def _writeFile(self, item: dict) -> None:
         pair = (item["a"], item["b"])
         arr = pairArray(item["gen"], item["a"], item["b"], item["N"], self.seedBase)
+        if item.get("scale", 1.0) != 1.0:
+            # a feebly coupled species next to a strongly coupled one
+            arr = arr * float(item["scale"])
+            self.ctx.probes["pair_with_very_different_magnitude"] += 1
         if item.get("dtype", "float64") != "float64":
             # a legal but unusual file: single precision (what is stored is then
             # the rounded numbers, and those are what must come back)
@@ -341,6 +345,8 @@ class CollisionMachine(Machine):
                                   for _ in self.pairs]
             if rng.random() < 0.3:
                 step["sizeType"] = rng.choice(["int32", "uint32", "uint64"])
+            if rng.random() < 0.2:
+                step["scales"] = [rng.choice([1.0, 1.0, 1e-8, 1e8, 1e-16]) for _ in self.pairs]
             return step
         if op == "writer_step":
             return {"op": op, "k": rng.choice([1, 1, 2, 4])}
@@ -425,7 +431,9 @@ class CollisionMachine(Machine):
         self.queue = [{"a": self.pairs[i][0], "b": self.pairs[i][1], "N": int(step["N"]),
                        "basis": step["basis"], "gen": self.gen,
                        "dtype": dtypes[i] if i < len(dtypes) else "float64",
-                       "sizeType": step.get("sizeType", "int")}
+                       "sizeType": step.get("sizeType", "int"),
+                       "scale": (step.get("scales") or [1.0] * len(self.pairs))[i]
+                       if i < len(step.get("scales") or [1.0] * len(self.pairs)) else 1.0}
                       for i in step["order"]]
         return ["generation", self.gen]
 
